@@ -14,16 +14,18 @@
     * `signer_cache_atomicity` (FULL under the discipline): any number of threads, any number of
       `SignBlock` calls each, all under the lock ⇒ every completed call returned the signature over
       the hash it was asked to sign, and the cache is consistent.
-    * WITHOUT the discipline (= the code as it is: `table_discipline_partial`):
+    * WITHOUT the discipline (= the code BEFORE the repairs f4ffd1d / 204ebea, see `legacy_table_discipline_refuted`):
       `signer_cache_atomicity_refuted` (a concrete schedule of the general machine),
       `signer_outcomes_unlocked` (ALL 70 merges of two unsynchronised calls enumerated: wrong
       signatures and torn caches are among the outcomes, and exactly which),
       `signer_stale_hit_unlocked` (reader matches Hash h2 and returns the old Sig of h1),
       `torn_cache_persists` (a torn cache makes a LATER, sequential call return a wrong signature),
       `lastSig_torn_unlocked` / `lastSig_consistent_locked`.
-    * `table_discipline_partial`: by `decide` over the committed table, exactly which shared
-      variables satisfy the discipline (head, Index, termList, evilDeputies) and which do not
-      (sigCache, lastSig, UnConfirmBlocks, LastConfirm, Offset); `table_offenders_*` name the rows.
+    * `table_discipline`: by `decide` over the committed table, ALL nine shared variables satisfy the discipline on
+      the current code (sigCache under `consensus.sigCacheMu` since f4ffd1d, lastSig under `Confirmer.lastSigLock`
+      since 204ebea, the unconfirmed tree under `ChainDatabase.RW` since a25165d, `FileQueue.Offset` under
+      `FileQueue.putLock` since 20ee480); the only unlocked accesses left are constructor / start-up code.  The
+      rows that broke it before the repairs are frozen in `legacyOffenders` (`legacy_*` theorems).
 
   ASSUMED, not modelled: Go's `sync.Mutex`/`RWMutex` give mutual exclusion and happens-before
   (a locked section is a sequence of steps no other locked section can interleave with), and
@@ -335,9 +337,9 @@ example :
       [0, 1, 0, 1, 0, 0, 1, 0, 0, 0, 1, 1, 1, 1, 1, 1, 1]
     c.owner = none ∧ c.st.rets = [(1, 2, 2), (0, 1, 1)] := by decide
 
-/-! ### WITHOUT the discipline (the code as it is) -/
+/-! ### WITHOUT the discipline (`SignBlock` before /repo commit f4ffd1d, `lastSig` before 204ebea) -/
 
-/-- **REFUTATION of signer_cache_atomicity without the lock** on the general machine: thread 0 runs
+/-- **REFUTATION of signer_cache_atomicity without the lock** (code before fix f4ffd1d) on the general machine: thread 0 runs
     `SignBlock 1` (e.g. `batchConfirmStable` goroutine signing stable block 1) and thread 1 runs
     `SignBlock 2` (e.g. `InsertBlock`→`TryConfirm` of block 2), neither section locked.  Schedule:
     both miss; 0 writes Hash:=1; 1 writes Hash:=2, Sig:=sig(2); 0 writes Sig:=sig(1); 1 returns
@@ -352,7 +354,7 @@ theorem signer_cache_atomicity_refuted :
 example : (merges 4 4).length = 70 := by decide
 
 set_option maxRecDepth 8000 in
-/-- **signer_outcomes_unlocked**: over ALL interleavings of `SignBlock 1 ∥ SignBlock 2` without a lock,
+/-- **signer_outcomes_unlocked** (code before fix f4ffd1d): over ALL interleavings of `SignBlock 1 ∥ SignBlock 2` without a lock,
     from the empty cache, the set of outcomes (ret₀, ret₁, final Hash, final Sig) is exactly this list:
     it contains calls that return the OTHER block's signature (`ret₀ = 2`, `ret₁ = 1`) and torn final
     caches (Hash 1 with Sig over 2; Hash 2 with Sig over 1). -/
@@ -371,14 +373,14 @@ theorem signer_bad_merges_count :
     ((merges 4 4).filter (fun m => (outcome 0 0 1 2 m).1 != some 1 || (outcome 0 0 1 2 m).2.1 != some 2)).length = 40 := by
   decide
 
-/-- **signer_stale_hit_unlocked** (the variant of the brief): cache = (Hash 1, Sig over 1); the writer
+/-- **signer_stale_hit_unlocked** (code before fix f4ffd1d; the variant of the brief): cache = (Hash 1, Sig over 1); the writer
     `SignBlock 2` has stored Hash := 2 but not yet Sig; a reader `SignBlock 2` matches Hash 2 and
     returns the old Sig over 1. -/
 theorem signer_stale_hit_unlocked :
     ∃ m ∈ merges 4 4, (outcome 1 1 2 2 m).2.1 = some 1 :=
   ⟨[false, false, true, true, false, false, true, true], by decide, by decide⟩
 
-/-- **torn_cache_persists**: after the unlocked merge `[0:start, 1:start, 0:wHash, 1:wHash, 1:wSig, 0:wSig, …]`
+/-- **torn_cache_persists** (code before fix f4ffd1d): after the unlocked merge `[0:start, 1:start, 0:wHash, 1:wHash, 1:wSig, 0:wSig, …]`
     the cache is (Hash 2, Sig over 1); a LATER `SignBlock 2`, run alone, hits and returns the signature
     over 1.  (`hx c19` reproduces exactly this on the real `consensus.SignBlock`, op `sign 2 1 2`.) -/
 theorem torn_cache_persists :
@@ -388,7 +390,7 @@ theorem torn_cache_persists :
 /-- sequential `SignBlock` on a consistent cache is correct (instance of `signSteps_seq`, computed) -/
 example : signSeq 0 0 5 = (5, 5, 5) ∧ signSeq 5 5 5 = (5, 5, 5) ∧ signSeq 5 5 6 = (6, 6, 6) := by decide
 
-/-- **lastSig_torn_unlocked**: lastSig = (Height 1, Hash 11); `SetLastSig(2, 22)` unlocked against the
+/-- **lastSig_torn_unlocked** (code before fix 204ebea): lastSig = (Height 1, Hash 11); `SetLastSig(2, 22)` unlocked against the
     two reads of `needConfirm`: over all 10 merges the reader sees exactly these (Height, Hash) pairs —
     two of them, (1, 22) and (2, 11), were never written. -/
 theorem lastSig_torn_unlocked :
@@ -403,34 +405,116 @@ theorem lastSig_consistent_locked (h0 x0 h1 x1 : Nat) :
 
 /-! ### which premises hold on the code: the committed fact table -/
 
-/-- **table_discipline_partial**: over the committed table (= the source, by the per-run
-    correspondence), the lock discipline holds for `ForkManager.head` (atomic.Value), `FileQueue.Index`,
-    `Manager.termList`, `Manager.evilDeputies`, and FAILS for `sigCache`, `Confirmer.lastSig`,
-    `ChainDatabase.UnConfirmBlocks`, `ChainDatabase.LastConfirm`, `FileQueue.Offset`. -/
-theorem table_discipline_partial :
-    disciplined table .head = true ∧ disciplined table .index = true ∧
-    disciplined table .termList = true ∧ disciplined table .evilDeputies = true ∧
-    disciplined table .sigCache = false ∧ disciplined table .lastSig = false ∧
-    disciplined table .unConfirmBlocks = false ∧ disciplined table .lastConfirm = false ∧
-    disciplined table .offset = false := by decide
+/-- **table_discipline** (current code = /repo with the repairs f4ffd1d `sigCacheMu`, 204ebea
+    `Confirmer.lastSigLock`, a25165d RW in the unconfirmed-tree readers, 20ee480 `FileQueue.putLock`): over the
+    committed table (= the source, by the per-run correspondence) the lock discipline holds for ALL nine shared
+    variables: every access from a real entry point holds the variable's lock (`guards` names it), so
+    `drf_of_discipline` applies per variable and `signer_cache_atomicity` applies to the real `SignBlock`. -/
+theorem table_discipline :
+    disciplined table .sigCache = true ∧ disciplined table .lastSig = true ∧
+    disciplined table .head = true ∧ disciplined table .unConfirmBlocks = true ∧
+    disciplined table .lastConfirm = true ∧ disciplined table .offset = true ∧
+    disciplined table .index = true ∧ disciplined table .termList = true ∧
+    disciplined table .evilDeputies = true := by decide
 
-/-- the offending paths for the signer memo: the `batchConfirmStable` goroutine and the RPC entry
-    (`PrivateNetAPI.BroadcastConfirm` → exported `SignBlock`) -/
-theorem table_offenders_sigCache :
-    (offenders table .sigCache).map (fun r => (r.write, r.entry)) =
+/-- no row of the current table breaks the discipline of any variable -/
+theorem table_no_offenders :
+    offenders table .sigCache = [] ∧ offenders table .lastSig = [] ∧ offenders table .head = [] ∧
+    offenders table .unConfirmBlocks = [] ∧ offenders table .lastConfirm = [] ∧ offenders table .offset = [] ∧
+    offenders table .index = [] ∧ offenders table .termList = [] ∧ offenders table .evilDeputies = [] := by decide
+
+/-- the only unlocked accesses left are constructor / start-up code (entry "-"), before the object is shared -/
+theorem table_unlocked_rows_are_startup :
+    (table.filter (fun r => !r.held)).all (fun r => r.kind == .startup) = true := by decide
+
+/-! #### code BEFORE the repairs (frozen fragment of the table of /repo at 2b30546, i.e. before f4ffd1d,
+    204ebea, a25165d, 20ee480): the rows that broke the discipline.  Kept as documentation of why the repairs
+    were needed and as the data the refutations above (`signer_*_unlocked`, `lastSig_torn_unlocked`) were
+    about; the harness still carries the oracles `c19/unlocked-access/*`, `c19/signblock-wrong-signature`,
+    `c19/data-race/*`, `c19/panic/concurrent-map/*`, which fire again if a repair is reverted. -/
+
+def legacyOffenders : List Row := [
+  ⟨.lastConfirm, "ChainDatabase.CandidatesRanking", false, false, .engine, "DPoVP.InsertBlock"⟩,
+  ⟨.lastConfirm, "ChainDatabase.CandidatesRanking", false, false, .engine, "DPoVP.MineBlock"⟩,
+  ⟨.lastConfirm, "ChainDatabase.CandidatesRanking", false, false, .store, "store:CandidatesRanking"⟩,
+  ⟨.lastConfirm, "ChainDatabase.GetActDatabase", false, false, .engine, "DPoVP.InsertBlock"⟩,
+  ⟨.lastConfirm, "ChainDatabase.GetActDatabase", false, false, .engine, "DPoVP.MineBlock"⟩,
+  ⟨.lastConfirm, "ChainDatabase.GetActDatabase", false, false, .store, "store:GetActDatabase"⟩,
+  ⟨.lastConfirm, "ChainDatabase.GetLastConfirm", false, false, .store, "store:GetLastConfirm"⟩,
+  ⟨.lastConfirm, "ChainDatabase.IterateUnConfirms", false, false, .engine, "DPoVP.InsertBlock"⟩,
+  ⟨.lastConfirm, "ChainDatabase.IterateUnConfirms", false, false, .engine, "DPoVP.InsertConfirms"⟩,
+  ⟨.lastConfirm, "ChainDatabase.IterateUnConfirms", false, false, .engine, "DPoVP.MineBlock"⟩,
+  ⟨.lastConfirm, "ChainDatabase.IterateUnConfirms", false, false, .go, "go:DPoVP.InsertBlock$1"⟩,
+  ⟨.lastConfirm, "ChainDatabase.IterateUnConfirms", false, false, .store, "store:IterateUnConfirms"⟩,
+  ⟨.lastConfirm, "ChainDatabase.LoadLatestBlock", false, false, .engine, "DPoVP.InsertBlock"⟩,
+  ⟨.lastConfirm, "ChainDatabase.LoadLatestBlock", false, false, .engine, "DPoVP.InsertConfirms"⟩,
+  ⟨.lastConfirm, "ChainDatabase.LoadLatestBlock", false, false, .engine, "DPoVP.MineBlock"⟩,
+  ⟨.lastConfirm, "ChainDatabase.LoadLatestBlock", false, false, .store, "store:LoadLatestBlock"⟩,
+  ⟨.unConfirmBlocks, "ChainDatabase.CandidatesRanking", false, false, .engine, "DPoVP.InsertBlock"⟩,
+  ⟨.unConfirmBlocks, "ChainDatabase.CandidatesRanking", false, false, .engine, "DPoVP.MineBlock"⟩,
+  ⟨.unConfirmBlocks, "ChainDatabase.CandidatesRanking", false, false, .store, "store:CandidatesRanking"⟩,
+  ⟨.unConfirmBlocks, "ChainDatabase.GetActDatabase", false, false, .engine, "DPoVP.InsertBlock"⟩,
+  ⟨.unConfirmBlocks, "ChainDatabase.GetActDatabase", false, false, .engine, "DPoVP.MineBlock"⟩,
+  ⟨.unConfirmBlocks, "ChainDatabase.GetActDatabase", false, false, .store, "store:GetActDatabase"⟩,
+  ⟨.lastSig, "Confirmer.SetLastSig", false, false, .go, "go:DPoVP.batchConfirmStable"⟩,
+  ⟨.lastSig, "Confirmer.SetLastSig", true, false, .go, "go:DPoVP.batchConfirmStable"⟩,
+  ⟨.offset, "FileQueue.Put", false, false, .engine, "DPoVP.InsertBlock"⟩,
+  ⟨.offset, "FileQueue.Put", false, false, .engine, "DPoVP.MineBlock"⟩,
+  ⟨.offset, "FileQueue.Put", false, false, .go, "go:SyncFileDB.start"⟩,
+  ⟨.offset, "FileQueue.Put", false, false, .store, "store:SetContractCode"⟩,
+  ⟨.offset, "FileQueue.Put", true, false, .engine, "DPoVP.InsertBlock"⟩,
+  ⟨.offset, "FileQueue.Put", true, false, .engine, "DPoVP.MineBlock"⟩,
+  ⟨.offset, "FileQueue.Put", true, false, .go, "go:SyncFileDB.start"⟩,
+  ⟨.offset, "FileQueue.Put", true, false, .store, "store:SetContractCode"⟩,
+  ⟨.offset, "FileQueue.PutBatch", false, false, .engine, "DPoVP.InsertBlock"⟩,
+  ⟨.offset, "FileQueue.PutBatch", false, false, .engine, "DPoVP.MineBlock"⟩,
+  ⟨.offset, "FileQueue.deliver", false, false, .engine, "DPoVP.InsertBlock"⟩,
+  ⟨.offset, "FileQueue.deliver", false, false, .engine, "DPoVP.MineBlock"⟩,
+  ⟨.offset, "FileQueue.deliver", false, false, .go, "go:SyncFileDB.start"⟩,
+  ⟨.offset, "FileQueue.deliver", false, false, .store, "store:SetContractCode"⟩,
+  ⟨.offset, "FileQueue.deliverBatch", true, false, .engine, "DPoVP.InsertBlock"⟩,
+  ⟨.offset, "FileQueue.deliverBatch", true, false, .engine, "DPoVP.MineBlock"⟩,
+  ⟨.offset, "FileQueue.emptyFile", true, false, .engine, "DPoVP.InsertBlock"⟩,
+  ⟨.offset, "FileQueue.emptyFile", true, false, .engine, "DPoVP.MineBlock"⟩,
+  ⟨.offset, "FileQueue.emptyFile", true, false, .go, "go:SyncFileDB.start"⟩,
+  ⟨.offset, "FileQueue.emptyFile", true, false, .store, "store:SetContractCode"⟩,
+  ⟨.sigCache, "consensus.SignBlock", false, false, .ext, "ext:consensus.SignBlock"⟩,
+  ⟨.sigCache, "consensus.SignBlock", false, false, .go, "go:DPoVP.batchConfirmStable"⟩,
+  ⟨.sigCache, "consensus.SignBlock", true, false, .ext, "ext:consensus.SignBlock"⟩,
+  ⟨.sigCache, "consensus.SignBlock", true, false, .go, "go:DPoVP.batchConfirmStable"⟩
+]
+
+/-- (code before the repairs) the discipline FAILED for `sigCache`, `Confirmer.lastSig`,
+    `ChainDatabase.UnConfirmBlocks`, `ChainDatabase.LastConfirm`, `FileQueue.Offset` -/
+theorem legacy_table_discipline_refuted :
+    disciplined legacyOffenders .sigCache = false ∧ disciplined legacyOffenders .lastSig = false ∧
+    disciplined legacyOffenders .unConfirmBlocks = false ∧ disciplined legacyOffenders .lastConfirm = false ∧
+    disciplined legacyOffenders .offset = false := by decide
+
+/-- (code before f4ffd1d) the offending paths for the signer memo: the `batchConfirmStable` goroutine and the
+    RPC entry (`PrivateNetAPI.BroadcastConfirm` → exported `SignBlock`) -/
+theorem legacy_offenders_sigCache :
+    (offenders legacyOffenders .sigCache).map (fun r => (r.write, r.entry)) =
       [(false, "ext:consensus.SignBlock"), (false, "go:DPoVP.batchConfirmStable"),
        (true, "ext:consensus.SignBlock"), (true, "go:DPoVP.batchConfirmStable")] := by decide
 
-theorem table_offenders_lastSig :
-    (offenders table .lastSig).map (fun r => (r.fn, r.write, r.entry)) =
+/-- (code before 204ebea) -/
+theorem legacy_offenders_lastSig :
+    (offenders legacyOffenders .lastSig).map (fun r => (r.fn, r.write, r.entry)) =
       [("Confirmer.SetLastSig", false, "go:DPoVP.batchConfirmStable"),
        ("Confirmer.SetLastSig", true, "go:DPoVP.batchConfirmStable")] := by decide
 
-/-- the unlocked readers of the unconfirmed-block tree -/
-theorem table_offenders_tree_fns :
-    dedup ((offenders table .unConfirmBlocks ++ offenders table .lastConfirm).map (·.fn)) =
+/-- (code before a25165d) the unlocked readers of the unconfirmed-block tree -/
+theorem legacy_offenders_tree_fns :
+    dedup ((offenders legacyOffenders .unConfirmBlocks ++ offenders legacyOffenders .lastConfirm).map (·.fn)) =
       ["ChainDatabase.CandidatesRanking", "ChainDatabase.GetActDatabase", "ChainDatabase.GetLastConfirm",
        "ChainDatabase.IterateUnConfirms", "ChainDatabase.LoadLatestBlock"] := by decide
+
+/-- (code before 20ee480) the unguarded writers of the write-ahead cursor -/
+theorem legacy_offenders_offset_fns :
+    dedup ((offenders legacyOffenders .offset).map (·.fn)) =
+      ["FileQueue.Put", "FileQueue.PutBatch", "FileQueue.deliver", "FileQueue.deliverBatch",
+       "FileQueue.emptyFile"] := by decide
 
 /-- the link table → premise of `drf_of_discipline`: build one section per row of `v` whose `locked`
     flag is the row's `held` (start-up rows excepted); if the table says `v` is disciplined, the
